@@ -145,6 +145,37 @@ def _register_ledger():
 _register_ledger()
 
 
+def _register_render():
+    """C17/C16 (bld-render): groups numberify (numberify.py) and render (column renderers of query_render.py);
+    specs and translator rules in src_numberify.py / src_render.py"""
+    from . import src_numberify
+    GROUPS['numberify'] = ('SrcNumberify.v', src_numberify.spec_numberify,
+                           {'translator': src_numberify.NumberifyTranslator, 'prims': src_numberify.PRIMS})
+
+
+_register_render()
+
+
+def _register_agg():
+    """C02 (bld-agg): the aggregated branch of execute_select, Allocator and the aggregator protocol methods of
+    query_env.py; spec, desugaring rules and translators in src_agg.py"""
+    from . import src_agg
+    GROUPS['agg'] = ('SrcAgg.v', src_agg.spec_agg, {'translator': src_agg.AggGroup, 'prims': src_agg.PRIMS})
+
+
+_register_agg()
+
+
+def _register_compiler():
+    """C05 (bld-compiler): groups lookup (types.function_lookup / _bases) and compiler (ORDER BY / GROUP BY / PIVOT BY
+    resolution, the aggregate walk, operator overload selection); specs and translator rules in src_compiler.py"""
+    from . import src_compiler
+    src_compiler.register(GROUPS)
+
+
+_register_compiler()
+
+
 def generate(group):
     """Regenerate coq/Gen/Src<Group>.v from the live source; raises py2mini.Untranslatable (fail closed)."""
     fname, spec, *rest = GROUPS[group]
